@@ -119,7 +119,7 @@ func c15Boundary() []float64 {
 func c15Run(c *Ctx) {
 	// 1. doubles: boundary + random by bit pattern, 60 per program, as print / ""+v / v+"" triples
 	r := c.Rand("doubles")
-	nprog := c.N(600, 20000)
+	nprog := c.N(600, 100000)
 	bd := c15Boundary()
 	bi := 0
 	for k := 0; k < nprog; k++ {
@@ -221,7 +221,7 @@ func c15Run(c *Ctx) {
 	}
 	// 5. random nested containers of random leaves
 	r = c.Rand("containers")
-	n := c.N(4000, 100000)
+	n := c.N(4000, 600000)
 	var gen func(d int) string
 	gen = func(d int) string {
 		if d == 0 || r.Intn(3) == 0 {
